@@ -137,6 +137,15 @@ def add_signers(U):
     U.fn(F_CONS2, "impl Signers :: fn new", wrap="impl Signers", ret="r", spec="""
     ensures r.0@.len() == n, forall|i: int| 0 <= i < n ==> !r.0@[i],
 """)
+    U.raw("""
+pub open spec fn bit_count(bits: Seq<bool>, k: int) -> int decreases k
+{ if k <= 0 { 0 } else { bit_count(bits, k - 1) + (if bits[k - 1] { 1int } else { 0 }) } }
+impl Signers {
+    // `self.0.iter().filter(|b| *b).count()` -- BitVec iterator, not extracted: assumed contract (A2)
+    #[verifier::external_body]
+    pub fn count(&self) -> (r: usize) ensures r == bit_count(self.0@, self.0@.len() as int) { unimplemented!() }
+}
+""", label="Signers::count stub")
     U.fn(F_CONS2, "impl Signers :: fn len", wrap="impl Signers", ret="r", spec="    ensures r == self.0@.len(),\n")
     U.fn(F_CONS2, "impl Signers :: fn is_empty", wrap="impl Signers", ret="r",
          spec="    ensures r == (forall|i: int| 0 <= i < self.0@.len() ==> !self.0@[i]),\n")
